@@ -174,7 +174,9 @@ pub fn monitor_invocation(out : &mut Out, tr : &mut Tracker, inv : &Invocation, 
         }
         for c in inv.calls.iter().filter(|c| c.op == "rename" && !c.in_command && c.ok)
         {
-            if c.dest_state == 2
+            // only what C08 protects: files at target paths and in the cache (ruler replaces its own state files)
+            let protected_destination = c.path2.starts_with(&cache_prefix()) || !in_ruler_dir(&c.path2);
+            if c.dest_state == 2 && protected_destination
             {
                 out.violation("C08:rename-over-different-content", format!("ruler renamed {:?} over {:?}, which held different content", c.path, c.path2), replay());
             }
